@@ -1261,3 +1261,47 @@ SUBCHECKS = [
     SubCheck("block_positive", check_block_positive, _bp_case, nt_bp, quick=192, thorough=3200, case_timeout=30),
     SubCheck("block_positive_doc", check_block_positive_doc, None, lambda c: "swap" if c["dd"] >= 3 else None, cases=_bp_doc_cases, exhaustive=True, case_timeout=60, shards=3),
 ]
+
+
+# ------------------------------------------------------------------------------------------------------
+# 13. S(k) norm across a sequence of calls (added after seeded change C14-t1 - matrix-independent operators cached in a
+#     module-level dict keyed by (k, d_A*d_B), i.e. without the ordered pair (d_A, d_B) - was missed: it needs two calls
+#     in one process on the same total dimension with the factors in different order)
+# ------------------------------------------------------------------------------------------------------
+@st.composite
+def _sk_seq_case(draw):
+    d = list(draw(st.sampled_from([(3, 4), (4, 3), (2, 3), (3, 2), (2, 4), (4, 2)])))
+    n = d[0] * d[1]
+    return {"d": d, "k": draw(st.integers(1, max(1, min(d) - 1))), "rank": draw(st.integers(2, n)), "seed": draw(gen.SEED), "npseed": draw(st.integers(0, 2**32 - 1)), "aseed": draw(gen.SEED)}
+
+
+def check_sk_sequence(case):
+    from toqito.matrix_props import sk_operator_norm
+
+    d, k = case["d"], case["k"]
+    n = d[0] * d[1]
+    X = gen.rand_density(case["seed"], n, case["rank"])
+    Xs = ref.permute(X, [1, 0], d, d)  # the same operator with the two parties exchanged: identical S(k) norm
+    ds = [d[1], d[0]]
+    opn = float(np.linalg.norm(X, 2))
+    tol = 1e-8 * max(opn, 1e-300)
+
+    def call(mat, dims):
+        np.random.seed(case["npseed"])
+        lo, up = (_scalar(o, "sk_operator_norm bound") for o in sk_operator_norm(mat, k, list(dims), None, 0))
+        return lo, up
+
+    first = call(X, d)
+    swapped = call(Xs, ds)
+    again = call(X, d)
+    tag = f"(dims {d}, k={k}, rank {case['rank']})"
+    for name, (lo, up), mat, dims in (("first call", first, X, d), ("call on the party-exchanged operator", swapped, Xs, ds), ("repeated first call", again, X, d)):
+        req(lo <= up + tol, f"{name}: lower bound {lo} > upper bound {up} {tag}", "sk:lower>upper")
+        req(lo <= opn + tol, f"{name}: lower bound {lo} exceeds the operator norm {opn} {tag}", "sk:lower>opnorm")
+        ach = _achieved(mat, list(dims), min(k, min(dims)), case["aseed"])
+        req(ach <= up + tol, f"{name}: upper bound {up} is below a value {ach} achieved by explicit vectors of Schmidt rank <= {k} {tag}", "sk:upper<achieved")
+    req(swapped[0] <= first[1] + tol and first[0] <= swapped[1] + tol, f"exchanging the parties changed the bracket: {first} vs {swapped} {tag} - the S(k) norm does not depend on the order of the parties", "sk:party-exchange")
+    req(abs(again[0] - first[0]) <= tol and abs(again[1] - first[1]) <= tol, f"the same call returned {first} and, after a call on other dimensions, {again} {tag}", "sk:history-dependent")
+
+
+SUBCHECKS.append(SubCheck("sk_norm_sequence", check_sk_sequence, _sk_seq_case, lambda c: f"dims={c['d']},k={c['k']}" if c["k"] >= 2 or c["d"][0] != c["d"][1] else None, quick=600, thorough=10000, shards=8, case_timeout=60))
